@@ -19,6 +19,7 @@ import (
 	"fmt"
 	"io"
 	"log"
+	"math"
 	"net/http"
 	"net/http/httptest"
 	"net/url"
@@ -26,6 +27,7 @@ import (
 	"runtime"
 	"runtime/debug"
 	"sort"
+	"strconv"
 	"strings"
 	"sync"
 	"time"
@@ -49,6 +51,7 @@ func init() {
 			"byte-level requests/responses (any method, verbatim-template and mutated paths, hostile queries, content types and bodies) through both routers, " +
 			"ValidateRequest (every registered body decoder incl. YAML with non-string keys / non-finite floats, zip, csv, multipart with YAML parts; NaN/Inf parameter texts; deepObject array indexes), " +
 			"error text / ConvertErrors / ValidationErrorEncoder+DefaultErrorEncoder, ValidateResponse, Validator.Middleware, ValidationHandler (file-loaded); " +
+			"typed Go values: bodies through a user-registered decoder that hands the validator map[any]any (non-string keys), int / int32 / int64 / float64 / json.Number, nested; " +
 			"histories: the same exchange 2–4 times in one fresh child process (field repeat) over documents with patterns in every position document validation does not compile (texts Go's regexp accepts and rejects) and over exchanges of the general stream; non-trivial = the model reports ≥1 feature/branch",
 		Exhaustive: true,
 		Gen:        genC10,
@@ -63,6 +66,7 @@ func init() {
 			"documents that fail to load or validate are outside the property (observed as invalid-doc, counted, never compared)",
 			"authentication callbacks are user code: only nil, NoopAuthenticationFunc and a function that returns AuthenticationInput.NewError are used",
 			"strings are ASCII",
+			"a user-registered body decoder returns values of the shapes the JSON / YAML decoders can return: nil, bool, string, int, int32, int64, float64, json.Number, []any, map[string]any, map[any]any with string / integer / bool / finite float keys",
 		},
 	})
 }
@@ -483,7 +487,7 @@ func (s *c10Stage) guard(stage string, f func()) (ok bool) {
 			site := ""
 			lines := strings.Split(st, "\n")
 			for i, l := range lines {
-				if (strings.Contains(l, "kin-openapi") || strings.Contains(l, "/repo/") || strings.Contains(l, "/tmp/mut/") || strings.Contains(l, "/tmp/r/")) && !strings.Contains(l, "kinverif") && strings.HasPrefix(l, "\t") {
+				if (strings.Contains(l, "kin-openapi") || strings.Contains(l, "/repo/") || strings.Contains(l, "/openapi3/") || strings.Contains(l, "/openapi3filter/") || strings.Contains(l, "/routers/")) && !strings.Contains(l, "kinverif") && strings.HasPrefix(l, "\t") {
 					site = strings.TrimSpace(l)
 					if i > 0 {
 						site = strings.TrimSpace(lines[i-1]) + " @ " + site
@@ -527,6 +531,92 @@ func c10Request(rq map[string]any) (*http.Request, error) {
 		req.Header.Set("Content-Type", ct)
 	}
 	return req, nil
+}
+
+// A body decoder as a user of the library writes one (RegisterBodyDecoder): the body is the JSON text of a value tree
+// (the nodes of c10Yaml) and the decoder hands the validator the Go value it describes WITH THE DYNAMIC TYPES decoders
+// outside encoding/json produce: map[any]any for a mapping with a non-string key (yaml.v2 style), int / int64 / int32
+// / float64 for numbers, json.Number, bool, nil, []any. Mapping keys are strings, ints, bools and finite floats
+// (nil and NaN keys are what the library's own YAML decoder rejects since ca97fab: not produced here either).
+const c10TypedCT = "application/x-c10-typed"
+
+func c10TypedDecoder(body io.Reader, _ http.Header, _ *openapi3.SchemaRef, _ openapi3filter.EncodingFn) (any, error) {
+	var tree any
+	dec := json.NewDecoder(body)
+	dec.UseNumber()
+	if err := dec.Decode(&tree); err != nil {
+		return nil, &openapi3filter.ParseError{Kind: openapi3filter.KindInvalidFormat, Cause: err}
+	}
+	return c10TypedValue(tree), nil
+}
+
+func c10TypedValue(n any) any {
+	m, ok := n.(map[string]any)
+	if !ok {
+		return nil
+	}
+	if v, ok := m["s"]; ok {
+		return fmt.Sprint(v)
+	}
+	if v, ok := m["i"]; ok {
+		i := c10Int(v)
+		switch jstr(m, "t") {
+		case "int64":
+			return int64(i)
+		case "int32":
+			return int32(i)
+		case "float64":
+			return float64(i)
+		case "number":
+			return json.Number(fmt.Sprint(i))
+		}
+		return i
+	}
+	if v, ok := m["f"]; ok {
+		f, err := strconv.ParseFloat(fmt.Sprint(v), 64)
+		if err != nil || math.IsNaN(f) || math.IsInf(f, 0) {
+			return 1.5
+		}
+		return f
+	}
+	if v, ok := m["b"].(bool); ok {
+		return v
+	}
+	if l, ok := m["l"].([]any); ok {
+		out := make([]any, 0, len(l))
+		for _, x := range l {
+			out = append(out, c10TypedValue(x))
+		}
+		return out
+	}
+	if kvs, ok := m["m"].([]any); ok {
+		allStr := true
+		out := map[any]any{}
+		for _, kv := range kvs {
+			p, ok := kv.([]any)
+			if !ok || len(p) != 2 {
+				continue
+			}
+			k := c10TypedValue(p[0])
+			switch k.(type) {
+			case string:
+			case int, int32, int64, float64, bool:
+				allStr = false
+			default: // nil, json.Number, composite keys: not a key a decoder produces
+				continue
+			}
+			out[k] = c10TypedValue(p[1])
+		}
+		if allStr {
+			sm := make(map[string]any, len(out))
+			for k, v := range out {
+				sm[k.(string)] = v
+			}
+			return sm
+		}
+		return out
+	}
+	return nil // {"n":true} and shrunk nodes
 }
 
 // c10Body: the bytes of a message body — rendered from the structured YAML tree "ybody" when there is one,
@@ -598,7 +688,9 @@ func c10Auth(o map[string]any) openapi3filter.AuthenticationFunc {
 	case "noop":
 		return openapi3filter.NoopAuthenticationFunc
 	case "deny":
-		return func(_ context.Context, in *openapi3filter.AuthenticationInput) error { return in.NewError(fmt.Errorf("denied")) }
+		return func(_ context.Context, in *openapi3filter.AuthenticationInput) error {
+			return in.NewError(fmt.Errorf("denied"))
+		}
 	}
 	return nil
 }
@@ -666,7 +758,10 @@ func c10RunTraffic(c hx.Case) any {
 
 func c10RunTrafficOnce(c hx.Case) any {
 	// the zip decoder is exported but not registered by the library: a user registers it like this
-	c10ZipOnce.Do(func() { openapi3filter.RegisterBodyDecoder("application/zip", openapi3filter.ZipFileBodyDecoder) })
+	c10ZipOnce.Do(func() {
+		openapi3filter.RegisterBodyDecoder("application/zip", openapi3filter.ZipFileBodyDecoder)
+		openapi3filter.RegisterBodyDecoder(c10TypedCT, c10TypedDecoder)
+	})
 	out := map[string]any{"kind": "ok"}
 	st := &c10Stage{out: out}
 	docv, _ := c["doc"].(map[string]any)
@@ -1056,6 +1151,14 @@ func genC10(ctx *hx.Ctx, emit func(hx.Case)) {
 	for i := 0; i < n; i++ {
 		emit(c10RandTraffic(r))
 	}
+	// ---- typed Go values from a user-registered body decoder
+	nt := 250
+	if ctx.Thorough() {
+		nt = 4000
+	}
+	for i := 0; i < nt; i++ {
+		emit(c10TypedTraffic(r))
+	}
 	// ---- histories: the same exchange several times in one (fresh) process
 	nh := 160
 	if ctx.Thorough() {
@@ -1071,6 +1174,74 @@ func genC10(ctx *hx.Ctx, emit func(hx.Case)) {
 		}
 		emit(c10HistoryTraffic(r))
 	}
+}
+
+// c10TypedTree: a value tree for the typed decoder: numbers carry the dynamic type they arrive with
+func c10TypedTree(r *hx.Rng, depth int) map[string]any {
+	scalar := func() map[string]any {
+		switch r.Intn(7) {
+		case 0, 1:
+			return map[string]any{"i": r.Intn(5), "t": hx.Pick(r, []string{"int", "int64", "int32", "float64", "number"})}
+		case 2:
+			return map[string]any{"b": r.Bool()}
+		case 3:
+			return map[string]any{"f": hx.Pick(r, []string{"1.5", "0.0", "2.5"})}
+		case 4:
+			return map[string]any{"n": true}
+		}
+		return map[string]any{"s": hx.Pick(r, []string{"a", "b", "k", "v", "x", "", "1", "true", "kids", "c"})}
+	}
+	if depth <= 0 || r.Chance(25) {
+		return scalar()
+	}
+	if r.Chance(30) {
+		l := []any{}
+		for i := r.Intn(3); i > 0; i-- {
+			l = append(l, c10TypedTree(r, depth-1))
+		}
+		return map[string]any{"l": l}
+	}
+	m := []any{}
+	for i := 1 + r.Intn(3); i > 0; i-- {
+		var k map[string]any
+		if r.Chance(65) {
+			k = map[string]any{"s": hx.Pick(r, []string{"a", "b", "k", "v", "kids", "n"})}
+		} else {
+			k = hx.Pick(r, []map[string]any{{"i": 1, "t": "int"}, {"i": 2, "t": "int64"}, {"b": true}, {"f": "2.5"}, {"i": 0, "t": "float64"}, {"s": "1"}})
+		}
+		m = append(m, []any{k, c10TypedTree(r, depth-1)})
+	}
+	return map[string]any{"m": m}
+}
+
+// c10TypedTraffic: request and response bodies of the content type of the user-registered typed decoder, described by
+// the schemas under which the validator walks into nested mappings and sequences
+func c10TypedTraffic(r *hx.Rng) hx.Case {
+	c10AllowAPCycle = false
+	noCycle := func() any {
+		for {
+			s := c10WalkSchema(r)
+			if b, _ := json.Marshal(s); !strings.Contains(string(b), "$ref") {
+				return s
+			}
+		}
+	}
+	method := hx.Pick(r, []string{"post", "put", "patch"})
+	op := map[string]any{
+		"requestBody": map[string]any{"content": map[string]any{c10TypedCT: map[string]any{"schema": noCycle()}}},
+		"responses":   map[string]any{"200": map[string]any{"description": "d", "content": map[string]any{c10TypedCT: map[string]any{"schema": noCycle()}}}},
+	}
+	doc := map[string]any{"openapi": "3.0.0", "info": map[string]any{"title": "t", "version": "1"},
+		"paths": map[string]any{"/a": map[string]any{method: op}}}
+	body := func() string {
+		b, _ := json.Marshal(c10TypedTree(r, 3))
+		return string(b)
+	}
+	req := map[string]any{"method": strings.ToUpper(method), "scheme": "http", "host": "h", "path": "/a", "rawURL": "http://h/a",
+		"query": "", "headers": []any{}, "ct": c10TypedCT, "body": body()}
+	resp := map[string]any{"status": 200, "ct": c10TypedCT, "body": body(), "headers": []any{}}
+	opts := map[string]any{"multi": r.Chance(50), "skipDefaults": r.Chance(30), "middleware": r.Chance(15), "exRO": r.Chance(20), "exWO": r.Chance(20)}
+	return hx.Case{"op": "traffic", "doc": doc, "router": hx.Pick(r, []string{"legacy", "gorilla"}), "req": req, "resp": resp, "opts": opts}
 }
 
 // schemas whose validation goes through state kept between calls: patterns (the process-wide cache of compiled
@@ -1097,7 +1268,9 @@ var c10StateBodies = []string{`"abc"`, `"tmp-x"`, `{"n":"abc"}`, `["abc","y"]`, 
 // repeated 2–3 times in one process
 func c10HistoryTraffic(r *hx.Rng) hx.Case {
 	st := func() any { return c10J(hx.Pick(r, c10StatePool)) }
-	plain := func() any { return c10J(hx.Pick(r, []string{`{"type":"string"}`, `{}`, `{"type":"string","pattern":"^[a-z]+$"}`})) }
+	plain := func() any {
+		return c10J(hx.Pick(r, []string{`{"type":"string"}`, `{}`, `{"type":"string","pattern":"^[a-z]+$"}`}))
+	}
 	pick := func() any {
 		if r.Chance(55) {
 			return st()
